@@ -358,8 +358,12 @@ class ModelCacheMixin:
 
             return min(cached, key=signed_key if signed else lambda v: v)
 
+        # as for eval: the witness is only in the cache if the solver knows all variables of e (_model_hook drops
+        # the others), so only then may later queries be answered from the cached models. This has to be decided
+        # before the call: ConstraintExpansionMixin adds a constraint on e below us.
+        cacheable = len(extra_constraints) == 0 and self.variables.issuperset(e.variables)
         m = super().min(e, extra_constraints=extra_constraints, signed=signed, exact=exact)
-        if len(extra_constraints) == 0:
+        if cacheable:
             (self._min_signed_exhausted if signed else self._min_exhausted)[e.hash()] = e
         return m
 
@@ -376,8 +380,9 @@ class ModelCacheMixin:
 
             return max(cached, key=signed_key if signed else lambda v: v)
 
+        cacheable = len(extra_constraints) == 0 and self.variables.issuperset(e.variables)
         m = super().max(e, extra_constraints=extra_constraints, signed=signed, exact=exact)
-        if len(extra_constraints) == 0:
+        if cacheable:
             (self._max_signed_exhausted if signed else self._max_exhausted)[e.hash()] = e
         return m
 
